@@ -44,7 +44,12 @@ CandAt(p) ==
 
 Init == ph = 1 /\ c \in Containers /\ x = NoneObj /\ r = FALSE
 Next == \/ ph = 1 /\ ph' = 2 /\ c' = c /\ x' \in { MkPoint(LP(p)) : p \in Pts } /\ r' = r
-        \/ ph = 2 /\ ph' = 3 /\ c' = c /\ x' \in { y \in CandAt(XYZ(x.p)) : InShard(y, c, SEED, IF y.k = "Point" THEN NSHARDP ELSE NSHARD) } /\ r' = Subset(x', c)
+        \* composite candidates anchored at a point OF the container are kept four times as often: contained and partly contained
+        \* candidates are rare among all candidates, and they are the ones that matter
+        \/ ph = 2 /\ ph' = 3 /\ c' = c
+           /\ LET nsh == IF Mem(x.p, c) THEN Max(1, NSHARD \div 4) ELSE NSHARD
+              IN x' \in { y \in CandAt(XYZ(x.p)) : InShard(y, c, SEED, IF y.k = "Point" THEN NSHARDP ELSE nsh) }
+           /\ r' = Subset(x', c)
 Spec == Init /\ [][Next]_vars
 
 \* L1 (generators) against L0 (pointwise) on probe points of the candidate
